@@ -1,6 +1,40 @@
-(* C05 — AMQP 0-9-1 methods and content are reported exactly.  Statements only (DESIGN.md 5.C05). *)
-Require Import V.Base.Prelude V.Amqp.AmqpTypes V.Amqp.AmqpModel.
+(* C05 — AMQP 0-9-1 methods and content are reported exactly.  Statements only, each closed by
+   `exact` (DESIGN.md 5.C05); the family files under Amqp/ hold the proofs. *)
+Require Import V.Base.Prelude V.Amqp.AmqpTypes V.Amqp.AmqpModel V.Amqp.AmqpSpec.
+Require Import V.Amqp.AmqpProofs V.Amqp.AmqpC01 V.Amqp.AmqpFrames V.Amqp.AmqpSigsTie.
+Local Open Scope N_scope.
 
-(* placeholder until the family proofs are in: the model's readers never ask for more fuel than provided on the empty payload *)
-Theorem C05_model_runs : read_table_entries 1 [] = POk [] [].
-Proof. exact eq_refl. Qed.
+(* every field value the specification's encoder can write (all 14 types, nested to any depth)
+   is read back exactly, and the reader stops exactly where the value ends *)
+Theorem amqp_field_roundtrip : forall v r fuel, wf_fv v -> (fneed v <= fuel)%nat ->
+  read_field fuel (enc_field v ++ r) = POk v r.
+Proof. exact AmqpProofs.amqp_field_roundtrip. Qed.
+
+Theorem amqp_table_roundtrip : forall t r fuel, wf_table t -> (tneed t <= fuel)%nat ->
+  read_table fuel (enc_table t ++ r) = POk t r.
+Proof. exact AmqpProofs.amqp_table_roundtrip. Qed.
+
+(* resynchronisation: a frame of a known type - supported method, unsupported method, header,
+   body, heartbeat, with a payload that parses or not, with a good or a bad end octet - takes
+   exactly size + 8 octets off the connection and yields a frame or a protocol error that
+   Dissect skips; nothing else *)
+Theorem C05_frame_exact : forall t c1 c2 s1 s2 s3 s4 p e r tl,
+  (b2n t = 1 \/ b2n t = 2 \/ b2n t = 3 \/ b2n t = 8) ->
+  be [s1; s2; s3; s4] <= max_frame -> Blen p = be [s1; s2; s3; s4] ->
+  let st := {| sdata := [t; c1; c2; s1; s2; s3; s4] ++ p ++ e :: r; stail := tl |} in
+  snd (read_frame st) = {| sdata := r; stail := tl |} /\ frame_or_protocol_error (fst (read_frame st)).
+Proof. exact frame_exact. Qed.
+
+Theorem C05_frame_exact_enc : forall typ ch p r tl,
+  (typ = 1 \/ typ = 2 \/ typ = 3 \/ typ = 8) -> ch < 2 ^ 16 -> Blen p <= max_frame ->
+  let st := {| sdata := enc_frame_raw typ ch p ++ r; stail := tl |} in
+  snd (read_frame st) = {| sdata := r; stail := tl |} /\ frame_or_protocol_error (fst (read_frame st)).
+Proof. exact AmqpFrames.C05_frame_exact_enc. Qed.
+
+Theorem C05_protocol_header : forall r tl,
+  read_frame {| sdata := proto_header ++ r; stail := tl |} = (Ok FrProto, {| sdata := r; stail := tl |}).
+Proof. exact proto_header_exact. Qed.
+
+(* the signature table the theorems and the model use is the one spec091.go has now *)
+Theorem C05_sigs_current : forallb entry_agrees V.gen.AmqpSigs.gen_sigs = true.
+Proof. exact sigs_agree. Qed.
